@@ -50,6 +50,9 @@ def configs(tier, seed):
                          "depth": 1 if tier == "quick" else 2})
         for a in rects:
             cfgs.append({"seed": seed, "mode": "product_rect", "left": a, "n": n})
+    for n in LARGE_SIZES:
+        for scale in LARGE_SCALES:
+            cfgs.append({"seed": seed, "mode": "large", "n": n, "scale": scale})
     return cfgs
 
 
@@ -281,7 +284,88 @@ def check_program(rec, seed, acc):
     return "checked"
 
 
+# ---------------------------------------------------------------------------------------------
+# large sizes x scales: determinants that leave the double range while their logarithm is ordinary
+# ---------------------------------------------------------------------------------------------
+
+LARGE_SIZES = (1, 60, 400)
+LARGE_SCALES = (1e-3, 0.05, 1.0, 30.0, 1e6)
+
+
+def large_builders(n, scale, seed):
+    """(name, factory, dense) for classes that can be built at any size from simple arrays."""
+    from mici import matrices as M
+
+    k = np.arange(n)
+    d = scale * (1.0 + 0.5 * np.cos(k + seed))                      # positive diagonal
+    L = np.diag(d) + 0.01 * scale * np.tril(np.sin(np.add.outer(k, 2.0 * k) + seed), -1)
+    A = L @ L.T                                                      # SPD, Cholesky factor L
+    ev, evec = None, None
+    out = [
+        ("scaled_identity", lambda: M.ScaledIdentityMatrix(-scale, n), -scale * np.eye(n)),
+        ("pos_diagonal", lambda: M.PositiveDiagonalMatrix(d.copy()), np.diag(d)),
+        ("triangular_lower", lambda: M.TriangularMatrix(L.copy(), lower=True), L),
+        ("triangular_upper", lambda: M.TriangularMatrix(L.T.copy(), lower=False), L.T),
+        ("inverse_triangular", lambda: M.InverseTriangularMatrix(L.copy(), lower=True),
+         np.linalg.inv(L)),
+        ("tri_factored_pd", lambda: M.TriangularFactoredPositiveDefiniteMatrix(
+            L.copy(), factor_is_lower=True), A),
+        ("tri_factored_neg", lambda: M.TriangularFactoredDefiniteMatrix(
+            L.copy(), sign=-1, factor_is_lower=True), -A),
+        ("dense_pd", lambda: M.DensePositiveDefiniteMatrix(A.copy()), A),
+        ("dense_square", lambda: M.DenseSquareMatrix(L.copy()), L),
+        ("dense_symmetric", lambda: M.DenseSymmetricMatrix(A.copy()), A),
+        ("softabs", lambda: M.SoftAbsRegularizedPositiveDefiniteMatrix(A.copy(), 1.0 / scale),
+         mzoo.softabs_dense(A, 1.0 / scale)),
+        ("block_diag_pd", lambda: M.PositiveDefiniteBlockDiagonalMatrix(
+            [M.PositiveScaledIdentityMatrix(scale, 1)] * 2
+            + [M.DensePositiveDefiniteMatrix(A.copy())]),
+         np.block([[scale * np.eye(2), np.zeros((2, n))], [np.zeros((n, 2)), A]])),
+    ]
+    return out
+
+
+def check_large(cfg, acc):
+    n, scale, seed = cfg["n"], cfg["scale"], cfg["seed"]
+    for name, fac, dense in large_builders(n, scale, seed):
+        F = {"class": name, "observable": "log_abs_det", "tree": "large"}
+        sign, want = np.linalg.slogdet(dense)
+        for how in ("direct", "inv", "T", "scaled", "sqrt"):
+            acc.count("evaluations")
+            try:
+                m = fac()
+                if how == "direct":
+                    got, ref = m.log_abs_det, want
+                elif how == "inv":
+                    got, ref = m.inv.log_abs_det, -want
+                elif how == "T":
+                    got, ref = m.T.log_abs_det, want
+                elif how == "scaled":
+                    got, ref = (2.0 * m).log_abs_det, want + dense.shape[0] * np.log(2.0)
+                else:
+                    if not offers(m, "sqrt") or m.sqrt.shape[0] != m.sqrt.shape[1]:
+                        continue
+                    got, ref = m.sqrt.log_abs_det, 0.5 * want
+            except Exception as e:  # noqa: BLE001
+                acc.violation(driver="large", config=cfg, fields={**F, "how": how,
+                                                                  "what": "raises"},
+                              kind="exception", observed=repr(e)[:200], expected=float(want))
+                continue
+            tol = 1e-9 * (1.0 + abs(ref)) + 1e-12 * dense.shape[0] * np.log(np.linalg.cond(dense)
+                                                                           + 1.0)
+            if not np.isfinite(got) or abs(got - ref) > tol:
+                acc.violation(driver="large", config=cfg,
+                              fields={**F, "how": how, "what": "value"}, kind="value_mismatch",
+                              observed=float(got), expected=float(ref))
+            else:
+                acc.outcome(("large", name, how, n, scale))
+    acc.count("programs_checked")
+
+
 def check_config(cfg, acc):
+    if cfg.get("mode") == "large":
+        check_large(cfg, acc)
+        return
     seed = cfg["seed"]
     if "program" in cfg:  # replay of a single program
         check_program(cfg["program"], seed, acc)
@@ -304,7 +388,10 @@ def run(tier, seed, acc):
         "rule": "all expression trees up to the depth bound over every matrix class x constructor "
                 "option x size 1..3 and the composite constructors; operators T, inv, sqrt, neg, "
                 "scalar *, /, @; every observable of every tree compared with the same tree on "
-                "dense arrays; distinct = distinct (result class, dense value) pairs",
+                "dense arrays; plus log-determinants (direct, of the inverse, transpose, scalar "
+                "multiple and square root) at sizes 1 / 60 / 400 x scales 1e-3 .. 1e6, where the "
+                "determinant itself leaves the double range; "
+                "distinct = distinct (result class, dense value) pairs",
         "exhaustive": True,
         "bounds": {"tier": tier, "chain_depth": 2 if tier == "quick" else 3,
                    "root_groups": len(cfgs),
